@@ -15,6 +15,7 @@ import RoModel.Drivers.Subject
 import RoModel.Drivers.SubjLin
 import RoModel.Drivers.Rate
 import RoModel.Drivers.Chan
+import RoModel.Drivers.Multi
 namespace Ro.Driver
 
 def handlers : List (String × (Case → String)) := [
@@ -31,7 +32,10 @@ def handlers : List (String × (Case → String)) := [
   ("subjlin", Drivers.SubjLin.run),
   ("rate", Drivers.Rate.run),
   ("chan", Drivers.Chan.run),
-  ("chanv", Drivers.Chan.runV)
+  ("chanv", Drivers.Chan.runV),
+  ("multi", Drivers.Multi.run),
+  ("multimicro", Drivers.Multi.runMicro),
+  ("multipark", Drivers.Multi.runMicro)
 ]
 
 def runCase (c : Case) : String :=
